@@ -358,12 +358,16 @@ mod verif_hooks {
         )
     }
 
-    fn same_bytes<T: Persistable>(a: &T, b: &T) -> bool {
-        let mut x = Vec::new();
-        let mut y = Vec::new();
-        a.write(&mut x);
-        b.write(&mut y);
-        x == y
+    /// Some(true) if both serialise to the same bytes; None if serialising panics
+    fn same_bytes<T: Persistable>(a: &T, b: &T) -> Option<bool> {
+        std::panic::catch_unwind(std::panic::AssertUnwindSafe(|| {
+            let mut x = Vec::new();
+            let mut y = Vec::new();
+            a.write(&mut x);
+            b.write(&mut y);
+            x == y
+        }))
+        .ok()
     }
 
     /// Read back what was just persisted and compare by value.
@@ -378,8 +382,11 @@ mod verif_hooks {
         let outcome = match restore::<T>(reader) {
             Ok(restored) if restored == *value => "equal".to_string(),
             // not equal as values: representation-only differences serialise identically
-            Ok(restored) if same_bytes(&restored, value) => "equal-bytes".to_string(),
-            Ok(_) => "differ".to_string(),
+            Ok(restored) => match same_bytes(&restored, value) {
+                Some(true) => "equal-bytes".to_string(),
+                Some(false) => "differ".to_string(),
+                None => "unwritable".to_string(),
+            },
             Err(e) => e,
         };
         emit(
@@ -404,8 +411,11 @@ mod verif_hooks {
             return;
         }
         let outcome = match restore::<T>(reader) {
-            Ok(restored) if same_bytes(&restored, value) => "equal".to_string(),
-            Ok(_) => "differ".to_string(),
+            Ok(restored) => match same_bytes(&restored, value) {
+                Some(true) => "equal".to_string(),
+                Some(false) => "differ".to_string(),
+                None => "unwritable".to_string(),
+            },
             Err(e) => e,
         };
         emit(
